@@ -15,7 +15,9 @@ Modelling decisions (trusted base):
 * a `map[K]V` is an association list in insertion order (Go's iteration order is random; no
   translated function ranges over a map).
 -/
+import DtailModel.Model.GoStr
 namespace Dtail.Go
+open Dtail
 
 abbrev GoString := List UInt8
 abbrev GoFloat := Int
@@ -98,6 +100,14 @@ structure GoRegex where
   flags : List GoString := []
   deriving Repr, DecidableEq
 
+/-- `*regexp.Regexp` is opaque: a compiled expression identified by its source text; the zero value is nil -/
+structure GoRe where
+  src : GoString := []
+  compiled : Bool := false
+  deriving Repr, DecidableEq
+
+instance : GoZero GoRe := ⟨{}⟩
+
 /-- `*line.Line`: `line.Null()` is the nil pointer -/
 inductive GoLine where
   | null
@@ -111,6 +121,10 @@ structure Ext where
   atoi : GoString → Int × GoErr := fun _ => (0, none)
   /-- `regex.Regex.Match` (RE2 behind the default / invert / noop flag) -/
   reMatch : GoRegex → GoString → Bool := fun _ _ => true
+  /-- `regexp.Compile` -/
+  reCompile : GoString → GoRe × GoErr := fun s => (⟨s, true⟩, none)
+  /-- `(*regexp.Regexp).Match` -/
+  reMatchRaw : GoRe → GoString → Bool := fun _ _ => true
   /-- `percentOf(total, value float64) float64`, observed through `int(...)` -/
   percentOf : GoFloat → GoFloat → GoFloat := fun _ _ => 100
 
